@@ -371,6 +371,10 @@ def _pf_spec(rng, cfg, factor=1.0):
     labels = list(cfg["target_labels"])
     if rng.random() < 0.2:
         rng.shuffle(labels)
+    if rng.random() < (0.4 if cfg["task"] == "fp_validation" else 0.1):
+        # a pass/fail threshold for the false_positive label itself: an estimate closer than this to an FP-labelled
+        # ground truth is a "matched FP", farther away the ground truth is a TN
+        labels.insert(rng.randrange(len(labels) + 1), "false_positive")
     if rng.random() < 0.08:
         return {"labels": labels, "thr": None}
     return {"labels": labels, "thr": [_r(rng.uniform(0.4, 4.0) * factor, 3) for _ in labels]}
